@@ -572,6 +572,26 @@ def transition_formulas(ctx, rid):
                ("bin", "Rem", ("bin", "Add", ANY, CONST1), ANY),
                "the successor of the vehicle at position p of its cycle is the vehicle at (p + 1) mod len",
                "end depots are aligned to the wrong vehicle's start depot")
+    # ... and it wraps: the index of the returned vehicle is computed with a remainder, or has a branch that yields 0
+    o, fd = ctx.require_fn("%s.get_successor_of.wraps-around" % rid, "T12", TR("get_successor_of"),
+                           "the successor of the last vehicle of a cycle is its first vehicle (the index wraps around)")
+    if fd is not None:
+        idx = [c for c in fd.body.calls() if (c.decl or c.callee or "").endswith("Index::index") and len(c.args) > 1]
+        if len(idx) != 1:
+            ctx.undecided(o, "%d indexing operations" % len(idx))
+        else:
+            e = shape.normalise(shape.expr(fd, idx[0].args[1]))
+            cs = shape.calls_of(e)
+            sl = fd.slice_operand_pure(idx[0], idx[0].args[1])
+            zero = any(d.instr is not None and d.instr.kind == "assign" and d.instr.rv_kind() == "use" and d.instr.ops
+                       and d.instr.ops[0].place is None and d.instr.ops[0].const_val() == 0 for d in sl["defs"])
+            if "op:Rem" in cs or zero:
+                ctx.ok(o, "index = %s" % shape.show(e)[:120])
+            elif "op:Add" in cs and e[0] != "?":
+                ctx.bad(o, "the index of the successor is %s: it never wraps to 0, so the last vehicle of a cycle has no (or a wrong) successor and its "
+                        "end depot is aligned to the wrong start depot" % shape.show(e)[:160], loc=idx[0].line())
+            else:
+                ctx.undecided(o, "index form not recognised: %s" % shape.show(e)[:120])
     shape_rule(ctx, "%s.counter-with-neighbours.formula" % rid, TR("maintenance_counter_of_tour_plus_dead_head_trips_before_and_after"),
                ("bin", "Add",
                 ("bin", "Add", ("call", "Tour::maintenance_counter", [side(2)]),
@@ -1166,8 +1186,44 @@ def transition_counter_deltas(ctx, rid):
         ctx.ok(o, "%d self-transfer(s)" % n)
     else:
         ctx.undecided(o, "no self-transfer recognised")
-    # add_vehicle_at_the_end: the new vehicle goes between the old last vehicle (its END depot) and the first vehicle (its START depot)
+    # add_vehicle_at_the_end: "the vehicle is alone in its cycle" is asked of the cycle WITH the new vehicle (length 1), or of the
+    # cycle before it joined (length 0 / empty); the old cycle having one vehicle is the opposite case
     key = TR("add_vehicle_at_the_end")
+    o, fd = ctx.require_fn("%s.add_vehicle_at_the_end.alone-test" % rid, "T12", key,
+                           "the self-loop case is taken when the cycle consists of the new vehicle alone (new length 1 = old length 0)")
+    if fd is not None:
+        verdicts = []
+        for ins in fd.body.instrs():
+            if ins.kind != "assign" or ins.rv_kind() != "binop" or ins.rv["op"] not in ("Eq", "Ne") or len(ins.ops) != 2:
+                continue
+            cs = [op for op in ins.ops if op.place is None]
+            vs = [op for op in ins.ops if op.place is not None]
+            if len(cs) != 1 or len(vs) != 1:
+                continue
+            k = cs[0].const_val()
+            if k is None:
+                continue
+            ch = direct_chain(fd, vs[0])
+            if not ch or not ch[0].endswith("::len"):
+                continue
+            built = any(x.split("::")[-1] in ("collect", "chain", "push", "from_iter", "extend") for x in ch[1:])
+            from_cycles = any("TransitionCycle" in x or x.endswith("::get") for x in ch)
+            if not from_cycles and not built:
+                continue
+            if built:
+                verdicts.append((ins, k == 1, "the new cycle vector has length %d" % k))
+            else:
+                verdicts.append((ins, k == 0, "the cycle before the vehicle joined has length %d" % k))
+        empt = [c for c in fd.body.calls() if (c.callee or "").endswith("TransitionCycle::is_empty")]
+        wrong = [v for v in verdicts if not v[1]]
+        if wrong:
+            ctx.bad(o, "the self-loop case is taken when %s: a vehicle joining an empty cycle is linked to neighbours that do not exist, "
+                    "one joining a one-vehicle cycle gets the counter of a lone vehicle" % wrong[0][2], loc=wrong[0][0].line())
+        elif verdicts or empt:
+            ctx.ok(o, "; ".join(v[2] for v in verdicts) or "is_empty() of the old cycle")
+        else:
+            ctx.undecided(o, "no length test of the cycle recognised")
+    # add_vehicle_at_the_end: the new vehicle goes between the old last vehicle (its END depot) and the first vehicle (its START depot)
     o, fd = ctx.require_fn("%s.add_vehicle_at_the_end.neighbours" % rid, "T12", key,
                            "the vehicle appended to a cycle sits between the END depot of the previous last vehicle and the START depot of the first")
     if fd is not None:
